@@ -22,6 +22,13 @@ type c11Node struct {
 }
 
 func (n c11Node) String() string {
+	if n.Kind == "try" {
+		var cs []string
+		for _, c := range n.Children {
+			cs = append(cs, c.String())
+		}
+		return fmt.Sprintf("recover{%s}", strings.Join(cs, "; "))
+	}
 	if n.Kind == "group" {
 		var cs []string
 		for _, c := range n.Children {
@@ -40,12 +47,43 @@ type c11Flat struct {
 	Path   string
 	IDs    []int
 	Hdr    bool // the registration carries the header constraint X-K: v
+	// Try > 0: the registration belongs to the Try-th leaf whose registration panic the program recovers: the
+	// flat list registers that leaf's entries in order and drops the rest of the leaf at the first refusal
+	Try int
 }
 
 type c11World struct {
 	f     *flamego.Flame
 	trace []int
 	par   map[string]string
+	// tryPan[k]: the k-th recovered leaf (1-based) was refused
+	tryPan map[int]bool
+}
+
+// c11RegisterFlat registers the flat list on w: a refusal of an ordinary entry ends it (pan), a refusal inside
+// a recovered leaf drops the rest of that leaf only.
+func c11RegisterFlat(w *c11World, flat []c11Flat) (pan interface{}) {
+	w.tryPan = map[int]bool{}
+	one := func(fl c11Flat) (pv interface{}) {
+		defer func() { pv = recover() }()
+		rt := w.f.Route(fl.Method, fl.Path, w.hs(fl.IDs))
+		if fl.Hdr {
+			rt.Headers("X-K", "v")
+		}
+		return nil
+	}
+	for _, fl := range flat {
+		if fl.Try > 0 && w.tryPan[fl.Try] {
+			continue
+		}
+		if pv := one(fl); pv != nil {
+			if fl.Try == 0 {
+				return pv
+			}
+			w.tryPan[fl.Try] = true
+		}
+	}
+	return nil
 }
 
 func (w *c11World) h(id int) flamego.Handler {
@@ -80,10 +118,27 @@ func c11Exec(w *c11World, prog []c11Node) (flat []c11Flat, mustReject bool, ambi
 		}
 		return out
 	}
+	tries := 0
+	w.tryPan = map[int]bool{}
 	var walk func(nodes []c11Node, prefix string, outer []int)
 	walk = func(nodes []c11Node, prefix string, outer []int) {
 		for _, n := range nodes {
 			switch n.Kind {
+			case "try":
+				// the application recovers from a refusal of this leaf and goes on registering
+				tries++
+				k, from := tries, len(flat)
+				func() {
+					defer func() {
+						if recover() != nil {
+							w.tryPan[k] = true
+						}
+					}()
+					walk(n.Children, prefix, outer)
+				}()
+				for i := from; i < len(flat); i++ {
+					flat[i].Try = k
+				}
 			case "autohead-on":
 				autoHead = true
 				w.f.AutoHead(true)
@@ -179,6 +234,36 @@ func c11Exec(w *c11World, prog []c11Node) (flat []c11Flat, mustReject bool, ambi
 					flat = append(flat, c11Flat{Method: "POST", Path: prefix + n.Path, IDs: all})
 					w.f.Combo(n.Path, w.hs(common)...).Post(w.hs(own)...)
 				}
+			case "verbs", "combo-verbs":
+				// every method shortcut of the router / of one Combo, each with a handler of its own (HEAD is
+				// left to AutoHead and to combo-toggle-head)
+				common := []int{}
+				if n.Kind == "combo-verbs" {
+					common = ids(n.NH)
+				}
+				base := append(append([]int{}, outer...), common...)
+				own := map[string][]int{}
+				for _, mm := range c11Verbs {
+					own[mm] = ids(1)
+					all := append(append([]int{}, base...), own[mm]...)
+					flat = append(flat, c11Flat{Method: mm, Path: prefix + n.Path, IDs: all})
+					if mm == "GET" && autoHead {
+						flat = append(flat, c11Flat{Method: "HEAD", Path: prefix + n.Path, IDs: all})
+					}
+				}
+				if n.Kind == "verbs" {
+					w.f.Get(n.Path, w.hs(own["GET"])...)
+					w.f.Patch(n.Path, w.hs(own["PATCH"])...)
+					w.f.Post(n.Path, w.hs(own["POST"])...)
+					w.f.Put(n.Path, w.hs(own["PUT"])...)
+					w.f.Delete(n.Path, w.hs(own["DELETE"])...)
+					w.f.Options(n.Path, w.hs(own["OPTIONS"])...)
+					w.f.Connect(n.Path, w.hs(own["CONNECT"])...)
+					w.f.Trace(n.Path, w.hs(own["TRACE"])...)
+				} else {
+					w.f.Combo(n.Path, w.hs(common)...).Get(w.hs(own["GET"])...).Patch(w.hs(own["PATCH"])...).Post(w.hs(own["POST"])...).Put(w.hs(own["PUT"])...).
+						Delete(w.hs(own["DELETE"])...).Options(w.hs(own["OPTIONS"])...).Connect(w.hs(own["CONNECT"])...).Trace(w.hs(own["TRACE"])...)
+				}
 			case "combo-toggle-head":
 				// GET on a Combo while AutoHead is off, AutoHead switched on, then HEAD on the same Combo (the
 				// setting the program had is restored afterwards): GET and HEAD with handlers of their own
@@ -242,6 +327,9 @@ type c11Case struct {
 
 var c11Methods = []string{"GET", "POST", "HEAD", "PUT", "BREW"}
 
+// c11Verbs: the methods that have a shortcut on the router and on a Combo, in the order the leaves call them
+var c11Verbs = []string{"GET", "PATCH", "POST", "PUT", "DELETE", "OPTIONS", "CONNECT", "TRACE"}
+
 func c11Paths(thorough bool) []string {
 	if thorough {
 		return pathsOver([]string{"g", "a", "v"}, 3, []string{"/", "/g/g/g/a", "/g/v/g/a", "/g/g/g/v", "/g/g/g/g/a", "/g/g/g/g/v", "/g-x", "/g/-x", "/v-x", "/g.a", "/g/.a", "/ga", "/va", "/g-x/a", "/g/-x/a", "/g.v/a", "/ga/a", "/g/a/a", "/o", "/o/t", "/o/", "/o/t/", "/g/o", "/g/o/t", "/o/v"})
@@ -264,30 +352,30 @@ func c11Judge(prog []c11Node, paths []string, l *core.Local) (bad, kind string, 
 	w2 := &c11World{f: flamego.NewWithLogger(io.Discard)}
 	var pan2 interface{}
 	if pan1 == nil {
-		func() {
-			defer func() { pan2 = recover() }()
-			for _, fl := range flat {
-				rt := w2.f.Route(fl.Method, fl.Path, w2.hs(fl.IDs))
-				if fl.Hdr {
-					rt.Headers("X-K", "v")
+		pan2 = c11RegisterFlat(w2, flat)
+		if pan2 == nil {
+			for k := 1; k <= len(w1.tryPan)+len(w2.tryPan); k++ {
+				if w1.tryPan[k] && !w2.tryPan[k] {
+					return fmt.Sprintf("the %d. recovered leaf of the program is refused although its flat expansion registers fine at that point", k), "refused-but-flat-accepted/recovered-leaf", cs, false
+				}
+				if !w1.tryPan[k] && w2.tryPan[k] {
+					return fmt.Sprintf("the %d. recovered leaf of the program registers although its flat expansion is refused at that point", k), "accepted-but-flat-refused/recovered-leaf", cs, false
 				}
 			}
-		}()
+		}
 	} else {
 		// the program died half way: the flat list is incomplete, so re-flatten without the real API
 		// is not possible; judge by the flattener's own verdict on a dry run
 		wdry := &c11World{f: flamego.NewWithLogger(io.Discard)}
 		var dryFlat []c11Flat
 		dryPan := func() (pv interface{}) {
-			defer func() { pv = recover() }()
-			dryFlat, mustReject, _ = c11FlattenOnly(prog)
-			for _, fl := range dryFlat {
-				rt := wdry.f.Route(fl.Method, fl.Path, wdry.hs(fl.IDs))
-				if fl.Hdr {
-					rt.Headers("X-K", "v")
+			defer func() {
+				if rv := recover(); rv != nil {
+					pv = rv
 				}
-			}
-			return nil
+			}()
+			dryFlat, mustReject, _ = c11FlattenOnly(prog)
+			return c11RegisterFlat(wdry, dryFlat)
 		}()
 		if dryPan == nil && !mustReject {
 			return fmt.Sprintf("the program is refused (%v) although its flat expansion registers fine", pan1), "refused-but-flat-accepted", cs, true
@@ -363,6 +451,7 @@ func c11Kinds(n c11Node) string {
 // c11FlattenOnly is c11Exec without touching any Flame.
 func c11FlattenOnly(prog []c11Node) (flat []c11Flat, mustReject, amb bool) {
 	nextID := 0
+	tries := 0
 	autoHead := false
 	ids := func(n int) []int {
 		out := make([]int, n)
@@ -380,6 +469,13 @@ func c11FlattenOnly(prog []c11Node) (flat []c11Flat, mustReject, amb bool) {
 				autoHead = true
 			case "autohead-off":
 				autoHead = false
+			case "try":
+				tries++
+				k, from := tries, len(flat)
+				walk(n.Children, prefix, outer)
+				for i := from; i < len(flat); i++ {
+					flat[i].Try = k
+				}
 			case "group":
 				g := ids(n.NH)
 				walk(n.Children, prefix+n.Path, append(append([]int{}, outer...), g...))
@@ -436,6 +532,19 @@ func c11FlattenOnly(prog []c11Node) (flat []c11Flat, mustReject, amb bool) {
 					}
 				} else {
 					flat = append(flat, c11Flat{Method: "POST", Path: prefix + n.Path, IDs: all})
+				}
+			case "verbs", "combo-verbs":
+				common := []int{}
+				if n.Kind == "combo-verbs" {
+					common = ids(n.NH)
+				}
+				base := append(append([]int{}, outer...), common...)
+				for _, mm := range c11Verbs {
+					all := append(append([]int{}, base...), ids(1)...)
+					flat = append(flat, c11Flat{Method: mm, Path: prefix + n.Path, IDs: all})
+					if mm == "GET" && autoHead {
+						flat = append(flat, c11Flat{Method: "HEAD", Path: prefix + n.Path, IDs: all})
+					}
 				}
 			case "combo-toggle-head":
 				base := append(append([]int{}, outer...), ids(n.NH)...)
@@ -618,6 +727,34 @@ func c11Programs(thorough bool) [][]c11Node {
 			}
 		}
 	}
+	// every method shortcut of the router and of a Combo, flat, in groups, with AutoHead, next to other leaves
+	for _, k := range []string{"verbs", "combo-verbs"} {
+		for _, pth := range []string{"/a", "/{x}"} {
+			lf := c11Node{Kind: k, Path: pth, NH: 1}
+			progs = append(progs, []c11Node{lf}, []c11Node{{Kind: "autohead-on"}, lf}, []c11Node{{Kind: "group", Path: "/g", NH: 1, Children: []c11Node{lf}}},
+				[]c11Node{{Kind: "group", Path: "/{p}", NH: 2, Children: []c11Node{lf, {Kind: "get", Path: "/v", NH: 1}}}, {Kind: "post", Path: "/v", NH: 1}},
+				[]c11Node{lf, {Kind: "any", Path: "/v", NH: 1}}, []c11Node{{Kind: "any", Path: "/{y}", NH: 1}, lf})
+		}
+	}
+	// a leaf that is refused (its method and full path are taken) while the application recovers and goes on:
+	// the refusal leaves the scope as it was - what is registered afterwards, inside the same group and after
+	// it, lands where the flat list puts it
+	{
+		firsts := []c11Node{{Kind: "get", Path: "/a", NH: 1}, {Kind: "post", Path: "/a", NH: 1}, {Kind: "combo-get", Path: "/a", NH: 1}, {Kind: "combo-post", Path: "/a", NH: 1}, {Kind: "any", Path: "/a", NH: 1}}
+		seconds := []c11Node{{Kind: "get", Path: "/a", NH: 2}, {Kind: "post", Path: "/a", NH: 1}, {Kind: "combo-get", Path: "/a", NH: 1}, {Kind: "combo-post", Path: "/a", NH: 2}, {Kind: "combo-get", Path: "/v", NH: 1}}
+		afters := []c11Node{{Kind: "get", Path: "/v", NH: 1}, {Kind: "post", Path: "/{x}", NH: 1}, {Kind: "combo", Path: "/v", NH: 1}}
+		for _, x := range firsts {
+			for _, y := range seconds {
+				t := c11Node{Kind: "try", Children: []c11Node{y}}
+				for _, z := range afters {
+					progs = append(progs, []c11Node{x, t, z},
+						[]c11Node{{Kind: "group", Path: "/g", NH: 1, Children: []c11Node{x, t, z}}, z},
+						[]c11Node{{Kind: "group", Path: "/g", NH: 2, Children: []c11Node{{Kind: "group", Path: "/{p}", NH: 1, Children: []c11Node{x, t}}, z}}, z},
+						[]c11Node{{Kind: "autohead-on"}, x, t, z})
+				}
+			}
+		}
+	}
 	// nested groups whose accumulated handler lists have spare capacity, with two sibling routes in the
 	// innermost group (and one after it): the shape in which shared backing arrays would bite
 	red := []c11Node{{Kind: "get", Path: "/a", NH: 1}, {Kind: "get", Path: "/v", NH: 1}, {Kind: "post", Path: "/a", NH: 2}, {Kind: "any", Path: "/{x}", NH: 1},
@@ -656,7 +793,7 @@ func c11Run(r *core.Run) {
 	}
 	progs := c11Programs(r.Thorough())
 	paths := c11Paths(r.Thorough())
-	r.Rule = "engine E over registration programs: sequences of leaves {Get, Get(...).Headers(...), Post, Routes(comma list), Routes(several method strings), Any, Combo.Get.Post (also with a spare-capacity caller slice, the same method twice, separate Combo calls for one path, and GET then - AutoHead switched on in between - HEAD on one Combo), AutoHead on/off} inside 0..2 levels of Group(prefix, 0..2 handlers); each program is executed through the real grouping API on one Flame and as its flat single-method expansion (concatenated paths and handler-id lists) on a second Flame; every request (5 methods x all paths up to 2-3 segments over the program's literals) must run the same handler ids in the same order with the same parameters; non-trivial = request that runs at least one handler"
+	r.Rule = "engine E over registration programs: sequences of leaves {Get, Get(...).Headers(...), Post, Routes(comma list), Routes(several method strings), Any, the eight method shortcuts of the router and of one Combo, Combo.Get.Post (also with a spare-capacity caller slice, the same method twice, separate Combo calls for one path, GET then - AutoHead switched on in between - HEAD on one Combo, and a leaf whose refusal the program recovers from before it goes on), AutoHead on/off} inside 0..2 levels of Group(prefix, 0..2 handlers); each program is executed through the real grouping API on one Flame and as its flat single-method expansion (concatenated paths and handler-id lists) on a second Flame; every request (5 methods x all paths up to 2-3 segments over the program's literals) must run the same handler ids in the same order with the same parameters; non-trivial = request that runs at least one handler"
 	r.Bounds["programs"] = len(progs)
 	r.Bounds["paths"] = len(paths)
 	r.Bounds["methods"] = c11Methods
